@@ -34,3 +34,5 @@ pub const S8M0_4A: Shape = split(8, 0, 0b0011, 4, 0b0110, 0, 0);
 pub const S16_4A: Shape = split(16, 0b1, 0, 4, 0b0110, 0, 0);
 /// unsplit, roomy 16-bucket main table with 2 elements
 pub const U16_2: Shape = unsplit(16, 0b101, 0);
+/// split with the tightest headroom I4 allows: growth_left == L + ceil(L/R)
+pub const S8T_4A: Shape = split(8, 0b0000_1111, 0, 4, 0b0110, 0, 0);
